@@ -6,7 +6,7 @@ Import ListNotations.
 Open Scope Z_scope.
 
 Lemma done_py_aux_eq base bts ls : forall fs i,
-  for_pending_aux i (fun f : mfut => RMeta (base + f_rel f) (if bts =? -1 then f_ts f else bts)
+  for_pending_aux i (fun f : mfut => RMeta (if base <? 0 then -1 else base + f_rel f) (if bts =? -1 then f_ts f else bts)
                                            (if bts =? -1 then 0 else 1) ls) fs
   = done_aux i base bts ls fs.
 Proof.
